@@ -240,7 +240,9 @@ def run_fresh(case):
     import json as _json
     inner = {k_: v_ for k_, v_ in case.items() if k_ != 'kind'}
     here = digest_of_call(inner, warm=True)
-    env = dict(os.environ, PVMON_NO_DECOY='1')
+    # the fresh interpreter runs with ANOTHER string-hash seed than the workers (which are pinned to 0): set / dict iteration order
+    # must not reach the bits of a result
+    env = dict(os.environ, PVMON_NO_DECOY='1', PYTHONHASHSEED=str(1 + int(sum(case['seed'])) % 11))
     code = ('import sys, json\nimport pvmon\npvmon.pin_paths()\nfrom pvmon.props import c15\n'
             'print("DIGEST " + c15.digest_of_call(json.loads(sys.argv[1]), warm=False))\n')
     pr = subprocess.run([sys.executable, '-B', '-W', 'ignore', '-c', code, _json.dumps(inner)], capture_output=True, text=True, timeout=300, env=env)
@@ -496,9 +498,9 @@ def plan(tier, seed):
     # fresh-interpreter comparisons: a helper process each, spread over the workers (they run after the other chunks are queued)
     fr = []
     for ci, cls in enumerate(CLASSES):
-        picks = FRESH_FUNCS if tier != 'quick' else [FRESH_FUNCS[(3 * ci + j_) % len(FRESH_FUNCS)] for j_ in range(6)] + (['convectionTerm', 'convectionUpwindTerm'] if NDIM[cls] > 1 else [])
+        picks = FRESH_FUNCS if tier != 'quick' else [FRESH_FUNCS[(3 * ci + j_) % len(FRESH_FUNCS)] for j_ in range(6)] + (['convectionTerm', 'convectionUpwindTerm'] if NDIM[cls] > 1 else []) + (['divergenceTerm', 'gradientTerm', 'diffusionTerm'] if NDIM[cls] == 3 else [])
         for j_, fn in enumerate(dict.fromkeys(picks)):
-            for rep in range((3 if (NDIM[cls] > 1 and fn.startswith('convection')) else 1) if tier == 'quick' else 3):
+            for rep in range((3 if (NDIM[cls] > 1 and (fn.startswith('convection') or (NDIM[cls] == 3 and fn in ('divergenceTerm', 'gradientTerm', 'diffusionTerm')))) else 1) if tier == 'quick' else 4):
                 fr.append({'cls': cls, 'kind': 'fresh', 'func': fn, 'per': bool(rep % 2) and gen.periodic_ok(cls, NDIM[cls] - 1), 'seed': [seed, 15, 700 + ci, j_, rep]})
     for j in range(0, len(fr), 2):
         chunks.append(fr[j:j + 2])
